@@ -22,6 +22,8 @@ pub enum ChainEv {
 	Mine(Vec<Transaction>),
 	MineSalted(Vec<Transaction>, u32),
 	Disconnect(u32),
+	/// user operation: the recipient of the first payment claims it now
+	UserClaim,
 }
 
 #[derive(Clone, Debug)]
@@ -31,6 +33,8 @@ pub struct Script {
 	/// who force-closes (None = nobody: only the funding/confirmation part is scripted)
 	pub closer: Option<usize>,
 	pub late_preimage: bool,
+	/// the recipient of the first payment claims it once the commitment has this many confirmations
+	pub claim_at_confs: Option<u32>,
 	/// reorg: (confirmations of the commitment when the reorg hits, depth, re-mine delay in blocks)
 	pub reorg: Option<(u32, u32, u32)>,
 	/// reorg of the funding transaction itself during channel establishment (depth)
@@ -42,6 +46,8 @@ struct Run {
 	cid: ChannelId,
 	events: Vec<ChainEv>,
 	tuples: Vec<String>,
+	/// per comparison point: (tip hash, outpoints the nodes' monitors are still trying to claim)
+	claims: Vec<(bitcoin::BlockHash, String)>,
 	irreversible: Vec<String>,
 	spendable_heights: Vec<(bitcoin::Txid, u32)>,
 }
@@ -109,7 +115,7 @@ fn execute(sc: &Script, style: SyncStyle, replay: Option<&[ChainEv]>, twin: bool
 	let mut w = World::new(vec![user_config(sc.ct), user_config(sc.ct)], 253);
 	w.style = style;
 	let cid = w.open_channel(0, 1, 1_000_000, 400_000_000);
-	let mut run = Run { w, cid, events: Vec::new(), tuples: Vec::new(), irreversible: Vec::new(), spendable_heights: Vec::new() };
+	let mut run = Run { w, cid, events: Vec::new(), tuples: Vec::new(), claims: Vec::new(), irreversible: Vec::new(), spendable_heights: Vec::new() };
 	let funding = run.w.chan(0, &cid).and_then(|c| c.funding_txo).map(|o| bitcoin::OutPoint { txid: o.txid, vout: o.index as u32 });
 	let w = &mut run.w;
 	w.send_payment(0, &[(1, cid)], 50_000_000, ClaimPolicy::Hold);
@@ -135,6 +141,7 @@ fn execute(sc: &Script, style: SyncStyle, replay: Option<&[ChainEv]>, twin: bool
 	let mut commitment_confs: u32 = 0;
 	let mut reorg_done = sc.reorg.is_none();
 	let mut pending_delay: u32 = 0;
+	let mut claimed_late = false;
 	let mut i = 0usize;
 	loop {
 		let w = &mut run.w;
@@ -150,7 +157,9 @@ fn execute(sc: &Script, style: SyncStyle, replay: Option<&[ChainEv]>, twin: bool
 				if i as u32 >= sc.total_blocks {
 					break;
 				}
-				if !reorg_done && sc.reorg.map(|r| commitment_confs == r.0).unwrap_or(false) {
+				if sc.claim_at_confs.map(|k| commitment_confs >= k).unwrap_or(false) && !claimed_late {
+					ChainEv::UserClaim
+				} else if !reorg_done && sc.reorg.map(|r| commitment_confs == r.0).unwrap_or(false) {
 					reorg_done = true;
 					pending_delay = sc.reorg.unwrap().2;
 					ChainEv::Disconnect(sc.reorg.unwrap().1)
@@ -176,6 +185,9 @@ fn execute(sc: &Script, style: SyncStyle, replay: Option<&[ChainEv]>, twin: bool
 				hd.nonce += *salt;
 				w.chain.blocks[h as usize].header = hd;
 			},
+			ChainEv::UserClaim => {
+				force_sync = true;
+			},
 			ChainEv::Disconnect(d) => {
 				if twin {
 					// the reorg-free twin never sees the doomed blocks: handled by the caller (events are filtered)
@@ -200,6 +212,7 @@ fn execute(sc: &Script, style: SyncStyle, replay: Option<&[ChainEv]>, twin: bool
 		// are told the new best block at the next connection
 		if batch && !at_end && since_sync < 3 && !force_sync {
 			run.tuples.push(String::new());
+			run.claims.push((w.chain.blocks.last().unwrap().header.block_hash(), String::new()));
 			continue;
 		}
 		if matches!(ev, ChainEv::Disconnect(_)) && !matches!(style, SyncStyle::ListenFull | SyncStyle::ListenFiltered | SyncStyle::ListenReplayed) && replay.is_some() {
@@ -208,6 +221,40 @@ fn execute(sc: &Script, style: SyncStyle, replay: Option<&[ChainEv]>, twin: bool
 		}
 		since_sync = 0;
 		w.sync_all();
+		if matches!(ev, ChainEv::UserClaim) {
+			{
+				claimed_late = true;
+				let pre = w.payments[0].preimage;
+				w.nodes[1].cm.claim_funds(pre);
+				w.pump();
+				w.run_to_quiescence(400);
+				crate::runner::witness("c11-preimage-provided-after-close-confirmed");
+			}
+		}
+		// what each monitor is still trying to claim: ask it to rebroadcast and look at the inputs
+		let mut pending_claims: Vec<String> = Vec::new();
+		for n in 0..w.nodes.len() {
+			w.nodes[n].mon.rebroadcast_pending_claims();
+			let mut ops: Vec<String> = w.nodes[n]
+				.bc
+				.out
+				.lock()
+				.unwrap()
+				.iter()
+				.flat_map(|b| b.txs.iter().flat_map(|t| t.input.iter().map(|i| i.previous_output)).collect::<Vec<_>>())
+				// a claim of an output that the chain already shows as spent cannot change any outcome (the
+				// library keeps re-offering pre-signed HTLC transactions whose output the peer took long ago)
+				.filter(|op| !w.chain.spent_by.contains_key(op))
+				.map(|op| format!("{}:{}", &op.txid.to_string()[..8], op.vout))
+				.collect();
+			ops.sort();
+			ops.dedup();
+			if !ops.is_empty() {
+				crate::runner::witness("c11-pending-claim-observed");
+			}
+			pending_claims.push(format!("n{}:{:?}", n, ops));
+		}
+		w.pump();
 		for _ in 0..4 {
 			let mut any = false;
 			for n in 0..w.nodes.len() {
@@ -239,7 +286,9 @@ fn execute(sc: &Script, style: SyncStyle, replay: Option<&[ChainEv]>, twin: bool
 				break;
 			}
 		}
-		run.tuples.push(tuple(w, &cumulative));
+		let claims = format!("claims={:?};", pending_claims);
+		run.claims.push((w.chain.blocks.last().unwrap().header.block_hash(), claims.clone()));
+		run.tuples.push(format!("{}{}", claims, tuple(w, &cumulative)));
 	}
 	run.irreversible = cumulative.keys().filter(|k| k.contains("SpendableOutputs") || k.contains("PaymentFailed") || k.contains("PaymentSent")).cloned().collect();
 	Ok(run)
@@ -252,7 +301,7 @@ pub fn scripts(tier: Tier) -> Vec<Script> {
 	for ct in cts {
 		for closer in [0usize, 1] {
 			for late in [false, true] {
-				v.push(Script { name: format!("{:?}-close{}-late{}", ct, closer, late as u8), ct, closer: Some(closer), late_preimage: late, reorg: None, total_blocks: 300 });
+				v.push(Script { name: format!("{:?}-close{}-late{}", ct, closer, late as u8), ct, closer: Some(closer), late_preimage: late, claim_at_confs: None, reorg: None, total_blocks: 300 });
 				let confs: Vec<u32> = if th { vec![1, 2, 3, 5] } else { vec![1, 3, 5] };
 				for c in confs {
 					for d in 1..=c.min(5) {
@@ -268,6 +317,41 @@ pub fn scripts(tier: Tier) -> Vec<Script> {
 								ct,
 								closer: Some(closer),
 								late_preimage: late,
+								claim_at_confs: None,
+								reorg: Some((c, d, delay)),
+								total_blocks: 320,
+							});
+						}
+					}
+				}
+			}
+			// the preimage reaches the monitor only after the closing transaction confirmed (k confirmations,
+			// still short of the anti-reorg depth); then a reorg that leaves the closing transaction in place
+			for k in 1..=4u32 {
+				v.push(Script {
+					name: format!("{:?}-close{}-claim-at-{}conf", ct, closer, k),
+					ct,
+					closer: Some(closer),
+					late_preimage: false,
+					claim_at_confs: Some(k),
+					reorg: None,
+					total_blocks: 300,
+				});
+				for c in (k + 1)..=5u32 {
+					for d in 1..=(c - k) {
+						if !th && !(d == 1 || d == c - k) {
+							continue;
+						}
+						for delay in [0u32, 2] {
+							if !th && k > 2 && delay == 0 {
+								continue;
+							}
+							v.push(Script {
+								name: format!("{:?}-close{}-claim-at-{}conf-reorg-c{}-d{}-delay{}", ct, closer, k, c, d, delay),
+								ct,
+								closer: Some(closer),
+								late_preimage: false,
+								claim_at_confs: Some(k),
 								reorg: Some((c, d, delay)),
 								total_blocks: 320,
 							});
@@ -345,9 +429,17 @@ pub fn run_script(sc: &Script) -> Result<ScriptResult, String> {
 		for e in reference.events.iter() {
 			match e {
 				ChainEv::Disconnect(d) => {
-					for _ in 0..*d {
-						filtered.pop();
+					// drop the d most recent blocks, keeping user operations
+					let mut left = *d;
+					let mut keep: Vec<ChainEv> = Vec::new();
+					while left > 0 {
+						match filtered.pop() {
+							Some(ChainEv::UserClaim) => keep.push(ChainEv::UserClaim),
+							Some(_) => left -= 1,
+							None => break,
+						}
 					}
+					filtered.extend(keep);
 				},
 				other => filtered.push(other.clone()),
 			}
@@ -365,6 +457,24 @@ pub fn run_script(sc: &Script) -> Result<ScriptResult, String> {
 				format!("{}|twin", sc.name),
 				format!("after the reorg the state differs from a world that only saw the final chain: ...{} <> ...{}", &sa[lo..(pos + 160).min(sa.len())], &sb[lo..(pos + 160).min(sb.len())]),
 			));
+		}
+		// at every tip both worlds have in common after the reorg, the monitors pursue the same claims
+		let last_disc = reference.events.iter().rposition(|e| matches!(e, ChainEv::Disconnect(_))).unwrap_or(0);
+		for (idx, (tip, claims)) in reference.claims.iter().enumerate() {
+			if idx < last_disc || claims.is_empty() {
+				continue;
+			}
+			if let Some((_, tc)) = twin.claims.iter().rev().find(|(t, c)| t == tip && !c.is_empty()) {
+				res.comparisons += 1;
+				if tc != claims {
+					res.violations.push((
+						"reorg-not-retracted".into(),
+						format!("{}|twin-claims", sc.name),
+						format!("at tip {} (chain event {}) the claims still pursued differ from a world that only saw the final chain: with reorg {} without {}", tip, idx, claims, tc),
+					));
+					break;
+				}
+			}
 		}
 		if reference.irreversible != twin.irreversible {
 			res.violations.push((
